@@ -65,7 +65,12 @@ def gen_cases(rng, tier):
             key = ['callable', 't']
         elif k == 4:
             cols = {'n': [x for x in NUMS if isinstance(x, int)][:rng.randint(3, 9)], 'm': [0, 1, -1, 5]}
-            key = ['list', ['n', 'm']]
+            # the documented format-string forms: literal text between the fields (':' and '!' included), and a field with a
+            # format specification next to a bare one (a zero-padded non-negative integer orders as the number does)
+            key = rng.pick([['list', ['n', 'm']], ['list', ['n', 'm']], ['fmt', '{n}:{m}'], ['fmt', '{n}!{m}'], ['fmt', '{n} / {m}'], ['fmt', '{n}{m:03}'],
+                            ['fmt', '{m:03}:{n}']])
+            if ':03' in key[1]:
+                cols['m'] = [0, 1, 5, 12, 107]
         elif k == 5:
             cols = {'t': rng.sample(TEXT_PREFIX, rng.randint(2, 5))}
             key = rng.pick([['list', ['t']], ['fmt', '{t}']])
@@ -79,6 +84,10 @@ def gen_cases(rng, tier):
             cases[-1]['ntype'] = rng.pick(['any', 'integer', 'year', 'number', 'year'])
         if k in (0, 4) and rng.chance(0.5):
             cases[-1]['lead'] = rows_enc([dict([('i', j)] + [(c_, rng.pick(['x', 'b', 'x1'])) for c_ in cols]) for j in range(rng.randint(1, 3))])
+    for fmt_key in ('{n}:{m}', '{n}!{m}', '{n}{m:03}', '{m:03}-{n}'):
+        rows_ = [{'i': j, 'n': n_, 'm': m_} for j, (n_, m_) in enumerate([(10, 1), (-3, 5), (2, 12), (-20, 0), (2, 5), (100, 1), (-3, 1)])]
+        for rev in (False, True):
+            cases.append({'kind': 'sort', 'rows': rows_enc(rows_), 'key': ['fmt', fmt_key], 'reverse': rev, 'batch_size': 1000, 'names': ['i', 'n', 'm']})
     # above the ordered store's 10240-entry cache (the result must not depend on fitting in it), both directions
     for big, rev in ([(10241, True)] if tier != 'thorough' else [(10241, True), (10241, False), (12000, True), (12000, False)]):
         cols = {'n': list(range(-50, 50))}
